@@ -74,10 +74,23 @@ def thread_probe(ck, tier, rng, keys, scratch):
                 in_write.wait(2)
                 st.add_block_to_buffer(c.block)
                 b_done.set()
-            t1 = threading.Thread(target=st.flush_blocks_to_disk)
+            raised = []
+
+            def flusher():
+                # the node opens the store in its main thread and flushes from the network thread
+                try:
+                    st.flush_blocks_to_disk()
+                except Exception as e:  # noqa
+                    raised.append(e)
+            t1 = threading.Thread(target=flusher)
             t2 = threading.Thread(target=other)
             t1.start(); t2.start(); t1.join(5); t2.join(5)
             st.write_blocks_to_disk = orig
+            if raised:
+                ck.violation('flush-from-network-thread-raises', 'a flush issued from another thread than the one that opened the '
+                             'store (as the node does: opened by the main thread, flushed by the network thread) raises %s: %s'
+                             % (type(raised[0]).__name__, str(raised[0])[:200]),
+                             {'probe': probe, 'schedule': 'open in main thread | flush(A,B) in a second thread'})
             try:
                 st.flush_blocks_to_disk()
                 rows = set(bytes(x[0]) for x in st.connection.execute('select block_hash from chain'))
